@@ -26,6 +26,7 @@ type op struct {
 	I     int    // subscriber index
 	Adv   string // "half" | "interval" | "next" | "2x" | "1ms"
 	More  int    // sub: this many further channels in the SAME Subscribe call (one shared context)
+	Ctx   string // sub: "" plain cancel context | "relay" a context type of the harness that relays the cancellation late | "busy-parent" the context has 300 other children
 }
 
 type batCase struct {
@@ -40,10 +41,14 @@ func opStr(o op) string {
 	case "burst":
 		return fmt.Sprintf("burst(k%d x%d)", o.Key, o.N)
 	case "sub":
-		if o.More > 0 {
-			return fmt.Sprintf("sub(%s,cap=%d,channels=%d)", o.Style, o.Cap, 1+o.More)
+		cx := ""
+		if o.Ctx != "" {
+			cx = ",ctx=" + o.Ctx
 		}
-		return fmt.Sprintf("sub(%s,cap=%d)", o.Style, o.Cap)
+		if o.More > 0 {
+			return fmt.Sprintf("sub(%s,cap=%d,channels=%d%s)", o.Style, o.Cap, 1+o.More, cx)
+		}
+		return fmt.Sprintf("sub(%s,cap=%d%s)", o.Style, o.Cap, cx)
 	case "read":
 		return fmt.Sprintf("read(s%d x%d)", o.I, o.N)
 	case "drain", "cancel":
@@ -240,6 +245,14 @@ func (h *harness) issue(o op) {
 	case "sub":
 		ctx, cancel := context.WithCancel(context.Background())
 		_ = cancel // kept in the subscribers
+		switch o.Ctx {
+		case "relay":
+			// a context type of the caller's own, which learns of the cancellation a few scheduler yields later
+			ctx = vk.NewRelayCtx(ctx, 20)
+		case "busy-parent":
+			// the subscriber's context has many other children: whatever the batcher attaches to it is one of many
+			vk.BusyParent(ctx, 300)
+		}
 		var group []*subscriber
 		var chans []chan<- int
 		for k := 0; k <= o.More; k++ {
@@ -768,7 +781,7 @@ func genCase(rt *rapid.T) batCase {
 			c.Ops = append(c.Ops, op{Kind: "adv", Adv: rapid.SampledFrom([]string{"half", "interval", "next", "2x", "1ms"}).Draw(rt, "adv")})
 		case k <= 12:
 			c.Ops = append(c.Ops, op{Kind: "sub", Style: rapid.SampledFrom([]string{"prompt", "prompt", "manual"}).Draw(rt, "style"), Cap: rapid.IntRange(0, 2).Draw(rt, "cap"),
-				More: rapid.SampledFrom([]int{0, 0, 0, 1, 2}).Draw(rt, "more")})
+				More: rapid.SampledFrom([]int{0, 0, 0, 1, 2}).Draw(rt, "more"), Ctx: rapid.SampledFrom([]string{"", "", "", "relay", "busy-parent"}).Draw(rt, "ctxKind")})
 		case k == 13:
 			c.Ops = append(c.Ops, op{Kind: "burst", Key: rapid.IntRange(0, 2).Draw(rt, "key"), N: rapid.SampledFrom([]int{3, 20, 56, 60}).Draw(rt, "n")})
 		case k == 14:
@@ -823,7 +836,7 @@ func TestBatcherStalledPositions(t *testing.T) {
 						c := batCase{IntervalMS: 10}
 						for i := 0; i < total; i++ {
 							if i == pos {
-								c.Ops = append(c.Ops, op{Kind: "sub", Style: "manual", Cap: capacity})
+								c.Ops = append(c.Ops, op{Kind: "sub", Style: "manual", Cap: capacity, Ctx: []string{"", "relay", "busy-parent"}[idx%3]})
 							} else {
 								c.Ops = append(c.Ops, op{Kind: "sub", Style: "prompt", Cap: i % 3})
 							}
